@@ -62,6 +62,11 @@ for e in dsssim:C12 vsssim:C10 dkgsim:C11 pvsssim:C13; do
   compare xbuild test ${e%:*} ${e#*:} verif verif,constantTime
   compare xbuild test ${e%:*} ${e#*:} verif verif,constantTime,purego
 done
+# group/mod.Int itself (math/big vs compatible/bigmod): replicated op logs, many cheap runs
+K=$((K*25))
+compare xbuild test modsim C18 verif verif,constantTime
+compare xbuild test modsim C18 verif verif,constantTime,purego
+K=$((K/25))
 compare xbuildbn plain signsim C09 verif verif,generic
 K=$((K*10))   # the bn256 edge-limb programs are cheap: ten times as many runs
 compare xbuildbn plain heterosim C18 verif verif,generic
@@ -70,7 +75,7 @@ smp=$(head -c 600 "$T/dkgsim-verif,constantTime.txt" | jq -Rs .)
 xb_wall=$(( $(date +%s) - t0 ))
 jq -n --argjson pairs $pairs --argjson runs $runs_compared --argjson lines $lines --argjson v $viol --argjson w $xb_wall --argjson k $K --argjson smp "$smp" \
   '{cross_build:{build_pairs_compared:$pairs, runs_per_pair:$k, run_transcripts_compared:$runs, transcript_lines_compared:$lines, differing_pairs:$v, wall_s:$w,
-    builds:["default","constantTime","constantTime+purego","generic (signing engine and bn256 edge-limb replicated programs)"], transcript_sample:$smp,
+    builds:["default","constantTime","constantTime+purego","generic (signing engine and bn256 edge-limb replicated programs)","mod.Int op logs under default / constantTime / constantTime+purego"], transcript_sample:$smp,
     note:"a transcript = the full event log of a run: every delivery and verdict, message and packet digests, output shares, keys and signatures"}}' > "$T/extra.json"
 if [ -n "${VERIF_MODFLAG:-}" ]; then
   (cd sim && $GO test -c -vet=off $VERIF_MODFLAG -tags verif -o "$T/verif" ./cmd/verif) || exit 2
